@@ -65,11 +65,11 @@ func configs(tier string) []*config {
 		}
 	}
 	return []*config{
-		mk(4, 1, 1, 1, false), // tip-following, one reorg, <=1 deviation
+		mk(4, 1, 1, 1, false),          // tip-following, one reorg, <=1 deviation
 		noHolds(mk(3, 1, 1, 2, false)), // one reorg, <=2 deviations (no listener holds: they triple this level-2 search)
-		mk(3, 1, 2, 0, false), // two reorgs, default answers, every placement of both
-		mk(6, 2, 1, 1, true),  // catch-up with 2 fetchers, one reorg, <=1 deviation, new state backend
-		mk(5, 2, 0, 2, false), // catch-up with 2 fetchers, no reorg, <=2 deviations (out-of-order answers, faults)
+		mk(3, 1, 2, 0, false),          // two reorgs, default answers, every placement of both
+		mk(6, 2, 1, 1, true),           // catch-up with 2 fetchers, one reorg, <=1 deviation, new state backend
+		mk(5, 2, 0, 2, false),          // catch-up with 2 fetchers, no reorg, <=2 deviations (out-of-order answers, faults)
 	}
 }
 
